@@ -5,9 +5,9 @@ variable {α : Type} [Num α] {n m : Nat}
 open CGrid
 
 /-- torch `custom(field, kernel, zero_padding=False, aperture)`:
-    `H = kernel·A;  U1 = fftshift(fft2 u)·A;  U2 = H·U1;  ifft2(ifftshift U2)`  (the aperture enters twice) -/
+    `H = kernel;  U1 = fftshift(fft2 u)·A;  U2 = H·U1;  ifft2(ifftshift U2)`  (kernel once, aperture once) -/
 def custom (u H A : CGrid α n m) : CGrid α n m :=
-  ifft2 (ifftshift (mul (mul H A) (mul (fftshift (fft2 u)) A)))
+  ifft2 (ifftshift (mul H (mul (fftshift (fft2 u)) A)))
 
 /-- no aperture (`aperture = 1.`) -/
 def customNoAp (u H : CGrid α n m) : CGrid α n m :=
